@@ -2,7 +2,7 @@
 
 use crate::core::{Rng, Tape, World, execute};
 use crate::net::{Chunking, EndCfg};
-use crate::peer::{self, NetCfg, ServerConn, install_epmd, install_peer, read_frame2};
+use crate::peer::{self, NetCfg, ServerConn, install_epmd_slow, install_peer, read_frame2};
 use crate::runner::{Info, RunOutput, Scenario, Tier, finish};
 use crate::wire;
 use edp_client::state_machine::{ConnectionState, HandshakeStateMachine};
@@ -85,6 +85,9 @@ struct Plan {
     attempts: Vec<Attempt>,
     #[serde(default)]
     steps: Vec<ApiStep>,
+    /// how long EPMD takes to answer the port lookup (not a peer behaviour; the handshake starts afterwards)
+    #[serde(default)]
+    epmd_delay_ms: u64,
     #[serde(default)]
     salt: u64,
 }
@@ -185,7 +188,7 @@ fn gen_attempt(r: &mut Rng, idx: usize, timeout_ms: u64, deviate: bool) -> Attem
         1 => a.challenge = (*r.pick(&["wrongtag", "short", "namelen", "badutf8", "twice", "before_status", "oldformat"])).to_string(),
         2 => a.ack = (*r.pick(&["random", "wrong_cookie", "peer_challenge", "stale", "wrongtag", "short", "early", "none"])).to_string(),
         3 => {
-            a.fault = (*r.pick(&["silence", "delay", "delay", "truncate", "hugelen", "reset", "close"])).to_string();
+            a.fault = (*r.pick(&["silence", "delay", "delay", "truncate", "hugelen", "reset", "close", "drip"])).to_string();
             a.fault_step = r.below(3) as u32;
             a.delay_ms = match r.below(4) {
                 0 => timeout_ms.saturating_sub(40),
@@ -193,6 +196,10 @@ fn gen_attempt(r: &mut Rng, idx: usize, timeout_ms: u64, deviate: bool) -> Attem
                 2 => timeout_ms / 2,
                 _ => timeout_ms * 3,
             };
+            if a.fault == "drip" {
+                // the gap between two bytes of a long frame, well below the timeout
+                a.delay_ms = (timeout_ms / *r.pick(&[3u64, 4, 10])).max(1);
+            }
         }
         _ => {
             a.connect_delay_ms = *r.pick(&[u64::MAX, timeout_ms + 30, timeout_ms.saturating_sub(30), 1]);
@@ -202,8 +209,89 @@ fn gen_attempt(r: &mut Rng, idx: usize, timeout_ms: u64, deviate: bool) -> Attem
 }
 
 /// Digests that are wrong in a structured way (what a hand-rolled comparison might let through).
+fn render_unpadded(d: &[u8], hex: bool) -> String {
+    d.iter().map(|b| if hex { format!("{:x}", b) } else { format!("{}", b) }).collect()
+}
+
+/// A different 16-byte value that a lossy comparison would take for `good`: equal after rendering
+/// without padding (hex or decimal), after lossy UTF-8 conversion, after ASCII case folding, as a
+/// C string (up to the first zero byte), or as a multiset of bytes. None if `good` has no such twin.
+fn lossy_twin(good: &[u8; 16], family: u32, a: u32) -> Option<[u8; 16]> {
+    let start = (a % 16) as usize;
+    match family {
+        0 | 1 => {
+            let hex = family == 0;
+            for k in 0..15 {
+                let i = (start + k) % 15;
+                let s = render_unpadded(&good[i..i + 2], hex);
+                for cut in 1..s.len() {
+                    let (l, r) = s.split_at(cut);
+                    let ok = |t: &str| t == "0" || !t.starts_with('0');
+                    if !ok(l) || !ok(r) {
+                        continue;
+                    }
+                    let radix = if hex { 16 } else { 10 };
+                    let (Ok(x), Ok(y)) = (u32::from_str_radix(l, radix), u32::from_str_radix(r, radix)) else { continue };
+                    if x > 255 || y > 255 || (x as u8, y as u8) == (good[i], good[i + 1]) {
+                        continue;
+                    }
+                    let mut d = *good;
+                    d[i] = x as u8;
+                    d[i + 1] = y as u8;
+                    if render_unpadded(&d, hex) == render_unpadded(good, hex) {
+                        return Some(d);
+                    }
+                }
+            }
+            None
+        }
+        2 => {
+            for k in 0..16 {
+                let i = (start + k) % 16;
+                if good[i] >= 0x80 {
+                    for cand in [0xffu8, 0xfe, 0x80, 0xc0, 0xf8] {
+                        let mut d = *good;
+                        d[i] = cand;
+                        if d != *good && String::from_utf8_lossy(&d) == String::from_utf8_lossy(good) {
+                            return Some(d);
+                        }
+                    }
+                }
+            }
+            None
+        }
+        3 => (0..16).map(|k| (start + k) % 16).find(|i| good[*i].is_ascii_alphabetic()).map(|i| {
+            let mut d = *good;
+            d[i] ^= 0x20;
+            d
+        }),
+        4 => good[..15].iter().position(|b| *b == 0).map(|z| {
+            let mut d = *good;
+            d[z + 1 + (start % (15 - z))] ^= 0x10;
+            d
+        }),
+        _ => {
+            for k in 0..16 {
+                let i = (start + k) % 16;
+                let j = (i + 1 + (a as usize / 16) % 15) % 16;
+                if good[i] != good[j] {
+                    let mut d = *good;
+                    d.swap(i, j);
+                    return Some(d);
+                }
+            }
+            None
+        }
+    }
+}
+
 fn near_miss_digest(good: &[u8; 16], kind: u32, a: u32, b: u32) -> [u8; 16] {
     let mut d = *good;
+    if kind % 12 >= 6 {
+        if let Some(t) = lossy_twin(good, kind % 12 - 6, a.wrapping_mul(7).wrapping_add(b)) {
+            return t;
+        }
+    }
     match kind % 6 {
         0 => d[(a % 16) as usize] ^= 1 << (b % 8),
         1 => {
@@ -286,6 +374,7 @@ impl Scenario for C04 {
             cap,
             attempts: if api { Vec::new() } else { attempts },
             steps: if api { gen_api_steps(r) } else { Vec::new() },
+            epmd_delay_ms: if r.chance(1, 6) { *r.pick(&[timeout_ms / 2, timeout_ms + 50, timeout_ms * 3]) } else { 0 },
             salt: r.next_u64(),
         };
         serde_json::to_value(p).unwrap()
@@ -317,12 +406,12 @@ impl Scenario for C04 {
 
     fn info(&self) -> Info {
         Info {
-            rule: "one run = seeded cookie/name/creation/flags/timeout/network behaviour + either (connect) 1..3 attempts on one Connection against a scripted peer with at most one deviation per attempt (status, challenge, ack variants; silence, delay around the timeout, truncation, 0xFFFF length then stall, reset, close; slow or never-completing TCP connect) or (api) a 3..12-step history of HandshakeStateMachine calls in any order with valid, invalid and stale arguments, checked step by step against a reference model. All runs are non-trivial; distinct = distinct (transfer sequence, event log).",
+            rule: "one run = seeded cookie/name/creation/flags/timeout/network behaviour + either (connect) 1..3 attempts on one Connection against a scripted peer with at most one deviation per attempt (status, challenge, ack variants; silence, delay around the timeout, truncation, 0xFFFF length then stall, a long frame trickled with gaps below the timeout for several timeouts, reset, close; wrong digests incl. twins under lossy comparisons (unpadded hex/decimal rendering, lossy UTF-8, case folding, C-string, byte multiset); an EPMD that answers after up to three timeouts; slow or never-completing TCP connect) or (api) a 3..12-step history of HandshakeStateMachine calls in any order with valid, invalid and stale arguments, checked step by step against a reference model. All runs are non-trivial; distinct = distinct (transfer sequence, event log).",
             components_real: &["edp_client::Connection::connect/close/send_*", "edp_client::state_machine", "edp_client::handshake", "edp_client::digest (formula)", "edp_client::transport + framing", "edp_client::epmd_client (client side)", "tokio timers (paused clock)"],
             components_stubbed: &["TCP (SimNet)", "EPMD daemon (conforming stub)", "remote node (scripted handshake peer, independent MD5 formula and layouts)", "challenge source (seeded through hook H4)"],
-            assumptions: &["EPMD itself conforms and does not stall (the property is about the peer)", "worst-case injected network delay per frame is kept below half the configured timeout, so a conforming peer is never legitimately timed out"],
+            assumptions: &["EPMD itself conforms; it may answer late (the property is about the peer, so the time bound is counted from EPMD's answer)", "worst-case injected network delay per frame is kept below half the configured timeout, so a conforming peer is never legitimately timed out"],
             fault_prefixes: &["fault.", "net."],
-            expected_probes: &["probe.c04.connected", "probe.c04.refused_status", "probe.c04.bad_ack_rejected", "probe.c04.stale_ack_rejected", "probe.c04.timeout_on_silence", "probe.c04.reuse_after_close_connected", "probe.c04.delay_just_below_timeout_ok", "probe.c04.delay_above_timeout_err", "probe.c04.api_connected"],
+            expected_probes: &["probe.c04.connected", "probe.c04.refused_status", "probe.c04.bad_ack_rejected", "probe.c04.stale_ack_rejected", "probe.c04.timeout_on_silence", "probe.c04.reuse_after_close_connected", "probe.c04.delay_just_below_timeout_ok", "probe.c04.delay_above_timeout_err", "probe.c04.api_connected", "probe.c04.timeout_on_dripped_frame", "probe.c04.connected_after_slow_epmd"],
         }
     }
 }
@@ -371,6 +460,23 @@ async fn peer_attempt(w: Arc<World>, mut conn: ServerConn, a: Attempt, cookie: S
                 let f = wire::frame2(next_frame);
                 let n = (f.len() / 2).max(1);
                 let _ = conn.write.write_all(&f[..n]).await;
+                false
+            }
+            "drip" => {
+                // announces a long frame and then trickles it, every gap shorter than the timeout, for
+                // several timeouts in total
+                let gap = a.delay_ms.max(1);
+                let total = 6 * gap * 10;
+                let _ = conn.write.write_all(&[0xff, 0xf0, next_frame.first().copied().unwrap_or(b's')]).await;
+                let mut spent = 0u64;
+                while spent < total {
+                    tokio::time::sleep(Duration::from_millis(gap)).await;
+                    spent += gap;
+                    if conn.write.write_all(b"k").await.is_err() {
+                        break;
+                    }
+                }
+                hold_open(conn, log).await;
                 false
             }
             "hugelen" => {
@@ -481,7 +587,7 @@ async fn peer_attempt(w: Arc<World>, mut conn: ServerConn, a: Attempt, cookie: S
     let ack_frame: Vec<u8> = match a.ack.as_str() {
         "random" => {
             let good = wire::digest(&cookie, cc);
-            wire::hs_ack(&near_miss_digest(&good, w.draw(6), w.draw(16), w.draw(8)))
+            wire::hs_ack(&near_miss_digest(&good, w.draw(12), w.draw(16), w.draw(8)))
         }
         "wrong_cookie" => wire::hs_ack(&wire::digest(&format!("{}x", cookie), cc)),
         "peer_challenge" => wire::hs_ack(&wire::digest(&cookie, a.peer_challenge)),
@@ -556,7 +662,7 @@ fn check_client_frames(w: &Arc<World>, p: &Plan, a: &Attempt, l: &PeerLog) {
 }
 
 async fn connect_history(w: &Arc<World>, p: &Plan) {
-    install_epmd(w, 7, "peer", 5555, true);
+    install_epmd_slow(w, 7, "peer", 5555, true, p.epmd_delay_ms);
     let logs: Arc<Mutex<Vec<Arc<Mutex<PeerLog>>>>> = Arc::new(Mutex::new(Vec::new()));
     let stale: Arc<Mutex<Option<[u8; 16]>>> = Arc::new(Mutex::new(None));
     let attempts = p.attempts.clone();
@@ -603,9 +709,14 @@ async fn connect_history(w: &Arc<World>, p: &Plan) {
         }
         let must_refuse_early = i > 0 && !a.close_before;
         *cur.lock().unwrap() = i;
-        let t0 = World::now_ms();
+        let t_call = World::now_ms();
         let res = conn.connect().await;
         let t1 = World::now_ms();
+        // the peer's part begins once EPMD has answered
+        let t0 = t_call + p.epmd_delay_ms;
+        if p.epmd_delay_ms > p.timeout_ms && res.is_ok() {
+            w.stat("probe.c04.connected_after_slow_epmd");
+        }
         w.ev(format!("attempt {} connect -> {} at {}ms state={}", i, if res.is_ok() { "Ok".to_string() } else { format!("Err({})", res.as_ref().unwrap_err()) }, t1, conn.state()));
 
         if must_refuse_early {
@@ -686,6 +797,7 @@ async fn connect_history(w: &Arc<World>, p: &Plan) {
                     (_, "stale", _) => w.stat("probe.c04.stale_ack_rejected"),
                     (_, "random" | "wrong_cookie" | "peer_challenge", _) => w.stat("probe.c04.bad_ack_rejected"),
                     (_, _, "silence") => w.stat("probe.c04.timeout_on_silence"),
+                    (_, _, "drip") => w.stat("probe.c04.timeout_on_dripped_frame"),
                     (_, _, "delay") => w.stat("probe.c04.delay_above_timeout_err"),
                     _ => {}
                 }
@@ -693,7 +805,7 @@ async fn connect_history(w: &Arc<World>, p: &Plan) {
             // Bounded time: an error within the configured timeout of the deviation.
             let start = l.deviated_at_ms.unwrap_or(t0).max(t0);
             let budget = p.timeout_ms + worst + 50;
-            let silent_kind = matches!(a.fault.as_str(), "silence" | "hugelen" | "delay") || a.ack == "none" || a.connect_delay_ms > p.timeout_ms;
+            let silent_kind = matches!(a.fault.as_str(), "silence" | "hugelen" | "delay" | "drip") || a.ack == "none" || a.connect_delay_ms > p.timeout_ms;
             if silent_kind && t1 > start + budget {
                 w.violation("late-error", format!("attempt {}: peer went silent at {}ms, connect() returned at {}ms; timeout is {}ms", i, start, t1, p.timeout_ms));
             }
